@@ -131,9 +131,21 @@ def check_parser(P, R):
                     unp = [st]
     R.require(unp, 'get_first_range: `start, end = <range>.split("-")` not found')
     sname, ename = [e.id for e in unp[0].targets[0].elts]
-    for st in walk_shallow(f.node):
-        if isinstance(st, ast.Assign) and isinstance(st.value, ast.Tuple) and len(st.value.elts) == 2:
-            a, b = st.value.elts
+    pair_values = [st.value for st in walk_shallow(f.node) if isinstance(st, ast.Assign) and isinstance(st.value, ast.Tuple) and len(st.value.elts) == 2]
+    # the same pair written as two consecutive assignments `start = A; end = B` (B not reading the new start)
+    for holder in ast.walk(f.node):
+        for fld in ('body', 'orelse'):
+            blk = getattr(holder, fld, None)
+            if not isinstance(blk, list):
+                continue
+            for s1, s2 in zip(blk, blk[1:]):
+                if isinstance(s1, ast.Assign) and isinstance(s2, ast.Assign) and len(s1.targets) == 1 and len(s2.targets) == 1 \
+                        and isinstance(s1.targets[0], ast.Name) and isinstance(s2.targets[0], ast.Name) and s1.targets[0].id == sname and s2.targets[0].id == ename \
+                        and not any(isinstance(x_, ast.Name) and x_.id == sname for x_ in ast.walk(s2.value)):
+                    pair_values.append(ast.copy_location(ast.Tuple(elts=[s1.value, s2.value], ctx=ast.Load()), s1))
+    for pv in pair_values:
+        if True:
+            a, b = pv.elts
             sa, sb = src(a), src(b)
             if isinstance(a, ast.Call) and dotted(a.func) == 'max' and sb == maxlen:
                 # max(0, maxlen - int(end))
